@@ -240,13 +240,17 @@ def gen_plan(r, tier, index):
 
 # ---------------------------------------------------------------------------- execution
 def _queue(c):
-    """Keys still sitting in a handle's write queue.  Private state of the backend: used only to make the oracle
-    STRICTER (which later failures on this handle have an explanation); where it cannot be read nothing is assumed."""
-    q = getattr(getattr(c, "_backend", None), "_write_queue", None)
+    """Keys still sitting in a handle's write queue, or None where that cannot be read.  Private state of the backend: it
+    is used only to make the oracle STRICTER (which later failures on this handle have an explanation).  Where it cannot
+    be read (the attribute was renamed, say) the oracle falls back to the loose rule: any later failure on a handle whose
+    session failed is explained."""
+    b = getattr(c, "_backend", None)
+    if b is None or not hasattr(b, "_write_queue"):
+        return None
     try:
-        return tuple(k_ for (k_, _v) in q) if q else ()
+        return tuple(k_ for (k_, _v) in b._write_queue)
     except Exception:  # noqa: BLE001
-        return ()
+        return None
 
 
 def _libname(i):
@@ -388,7 +392,7 @@ def _run_plan(plan, trace=False):
                             handles[ad["h"]] = pickle.loads(blob)
                             hcb[ad["h"]] = cb
                             res.stats["probe:used_handle_shipped_to_another_process"] += 1
-                            if _queue(handles[ad["h"]]):
+                            if _queue(handles[ad["h"]]) is None or _queue(handles[ad["h"]]):
                                 inherited.add(ad["h"])
                                 res.stats["probe:shipped_handle_carried_a_write_queue"] += 1
                     c = handles[sp["h"]]
@@ -430,7 +434,11 @@ def _run_plan(plan, trace=False):
                         S.exc = e
                     kern.set_phase(None)
                     S.queue_keys = _queue(c)
-                    S.queue_left = len(S.queue_keys)
+                    if S.queue_keys is None:
+                        # unknown: after a failed session assume something may have stayed behind
+                        S.queue_left = 1 if S.outcome == "exc" else 0
+                    else:
+                        S.queue_left = len(S.queue_keys)
                     S.shipped_dirty = sp["h"] in shipped_dirty
                     # L: read off the simulated OS what this process still holds
                     # (a descriptor on the LOCK file without a lock - fasteners keeps one after a timed-out
@@ -443,7 +451,7 @@ def _run_plan(plan, trace=False):
                     for sh in p.get("ships", ()):
                         if sh["after"] == si:
                             mailbox[sh["slot"]] = (pickle.dumps(handles[sh["h"]]), hcb[sh["h"]])
-                            if _queue(handles[sh["h"]]):
+                            if _queue(handles[sh["h"]]) is None or _queue(handles[sh["h"]]):
                                 shipped_dirty.add(sh["h"])
             return main
 
@@ -675,8 +683,8 @@ def _oracles(plan, kern, sched, sessions, marks, res, limit_hit):
                 for O in sessions:
                     if O is S or O.lib != lib or O.pid == S.pid or O.invoke is None:
                         continue
-                    if S.kind == "r" and O.kind == "r":
-                        continue
+                    # (two readers are not REQUIRED to share: an implementation that serialises readers as well keeps every
+                    #  clause of the statement, so another reader's overlap counts as a possible reason for a timeout too)
                     o_end = O.ret if O.ret is not None else len(marks)
                     if O.invoke <= S.ret and o_end >= S.invoke:
                         conflict = True
@@ -743,6 +751,7 @@ def _oracles(plan, kern, sched, sessions, marks, res, limit_hit):
                 # observed as stored), or a queue that exists twice because the handle was pickled with it.
                 carried = dirty_handles.get(S.hkey, ())
                 explained = (S.fault is not None or S.inherited or S.shipped_dirty
+                             or carried is None      # (the queue could not be inspected: loose rule)
                              or any(k_ in committed or k_.startswith("shared") for k_ in carried))
                 seen_in_sess = set()
                 for (k, v) in S.puts:
